@@ -1367,3 +1367,38 @@ def event_loops_suspend_only_where_vetted(ctx, rule):
             ok = bool(names) and all(any(re.search(v, nm) for v in vetted) for nm in names)
             R.check(ok, rule, "%s:await:%s" % (fkey(b), "+".join(short(x) for x in names)[:80]), "the loop suspends at a vetted point (%s)" % ", ".join(short(x) for x in names), "%s awaits %s inside its loop: that is not one of the vetted suspension points (%s). While the loop waits there it does not accept / refuse new connections, does not see the stop signal and does not notice that the peer is gone, so the connection's slot is not released" % (short(b.path), [short(x) for x in names], ", ".join(short(v.strip("^$")) for v in vetted)), where(c))
     R.floor(rule, n, 3, "await points inside the accept / connection loops")
+
+
+def request_ids_reserved_atomically(ctx, rule):
+    """request ids are what a response is matched by, so two calls in flight never share one: CurrentId::next_n reserves
+    its block of ids with a single atomic read-modify-write (fetch_add of n) - a load followed by a store hands the same
+    id to two threads calling through one shared client (the second call is refused as a duplicate or, over HTTP, two
+    callers accept each other's answers). Also: no function of the client core reads an atomic and writes it back."""
+    F, R = ctx.F, ctx.R
+    tr = ctx.tracer(follow_callers=False, follow_fields=False, inline_calls=False)
+    b = F.one(r"^jsonrpsee_core::client::CurrentId::next_n$")
+    R.fn(b)
+    ops = [c for c in b.calls if re.search(r"atomic::Atomic\w*::<.*>::\w+$|atomic::Atomic\w+::\w+$", c.name() or "")]
+    kinds = sorted((c.name() or "").split("::")[-1] for c in ops)
+    ok = kinds == ["fetch_add"]
+    if ok:
+        lv = tr.origins(b, ops[0].args[1])
+        ok = bool(lv) and all(l.kind == "param" and l.detail.get("idx") == 2 for l in lv)
+    R.check(ok, rule, "next_n:single-fetch_add", "ids are reserved with one fetch_add(n)", "CurrentId::next_n does not reserve its ids with a single fetch_add(n) (atomic operations: %s): two threads calling through one client can be handed the same request id" % kinds, "%s:%d" % (b.file, b.lo))
+    n = 0
+    for x in F.real_bodies():
+        if not re.search(r"^<?jsonrpsee_(core::client|http_client|client_transport)", x.path) or is_test_body(x):
+            continue
+        n += 1
+        loads = [c for c in x.calls if re.search(r"atomic::Atomic\w*(::<.*>)?::load$", c.name() or "")]
+        stores = [c for c in x.calls if re.search(r"atomic::Atomic\w*(::<.*>)?::store$", c.name() or "")]
+        for ld in loads:
+            for st in stores:
+                la = tr.origins(x, ld.args[0])
+                sa = tr.origins(x, st.args[0])
+                same = {leaf_str(l) for l in la} & {leaf_str(l) for l in sa}
+                sv = tr.origins(x, st.args[1])
+                dep = any(l.kind == "call" and l.detail.get("bb") == ld.bb for l in sv) or any(l.kind == "arith" for l in sv)
+                if same and dep and x.can_reach(ld.bb, st.bb):
+                    R.bad(rule, "%s:load-then-store" % fkey(x), "%s reads an atomic and stores a value computed from it back: the update is not atomic, two threads can observe the same value" % short(x.path), where(st))
+    R.ok(rule, "no-load-then-store", "no non-atomic read-modify-write in %d client bodies" % n)
